@@ -13,8 +13,8 @@ import (
 // Record is one name record together with the bytes it points to.
 type Record struct {
 	Platform, Encoding, Language, NameID uint16
-	Offset, Length                        int // relative to the storage area
-	Data                                  []byte
+	Offset, Length                       int // relative to the storage area
+	Data                                 []byte
 }
 
 // Table is a decoded "name" table (version 0 or 1).
@@ -109,8 +109,8 @@ func (t *Table) CheckSorted() error {
 // area unless an identical byte string is already there and Share is set.
 type RawRecord struct {
 	Platform, Encoding, Language, NameID uint16
-	Data                                  []byte
-	Share                                 bool
+	Data                                 []byte
+	Share                                bool
 }
 
 // Build writes a "name" table with the records in the given order.  For
